@@ -102,6 +102,9 @@ def build_cases(tier):
                lambda inp: ok([('x', ['(+ in_0 1)', '(+ in_1 1)', '(+ in_1 1)'])])))
     C.append(T('alias_copy_builtin', TYPES, V + 'src := []inner{{a, 1}, {a, 2}}\ndst := make([]inner, 2)\ncopy(dst, src)\nsrc[0].a = b\ndst[1].b = b\ncopy(src[1:], src[:1])\nprintln("c", dst[0].a, src[1].b, src[1].a, dst[1].b)',
                lambda inp: ok([('c', ['in_0', '1', 'in_1', 'in_1'])])))
+    # a variable that already has aliases is overwritten as a whole by a composite literal: the aliases see the new value
+    C.append(T('alias_reassign_composite', [TYPES, 'var pkgStruct = inner{1, 2}\n'], V + 'x := inner{a, 1}\np := &x\nfp := &x.b\nx = inner{b, 2}\narr := [2]int{a, 1}\ns := arr[:]\narr = [2]int{b, 2}\no := outer{n: a}\nf := o.ptrMethod\no = outer{n: 5}\nf(b)\nq := &pkgStruct\npkgStruct = inner{a, b}\nprintln("r", p.a, p.b, *fp, s[0], s[1], o.n, q.a, q.b)',
+               lambda inp: ok([('r', ['in_1', '2', '2', 'in_1', '2', 'in_1', 'in_0', 'in_1'])])))
     return C
 
 
